@@ -142,7 +142,7 @@ func (r *c03Reader) Read(p []byte) (int, error) {
 	return n, nil
 }
 
-const c03NumHow = 7
+const c03NumHow = 8
 
 // c03Apply performs one body-building call and returns the body it stands for.
 func c03Apply(ctx *RequestCtx, how int, body []byte, readerMode int) []byte {
@@ -165,11 +165,20 @@ func c03Apply(ctx *RequestCtx, how int, body []byte, readerMode int) []byte {
 		})
 	case 6: // stream, "unknown size" spelled as another negative number
 		ctx.SetBodyStream(&c03Reader{data: body, mode: readerMode}, -2)
+	case 7: // an io.LimitedReader of unknown declared size: its N is the size
+		ctx.SetBodyStream(io.LimitReader(&c03Reader{data: append(append([]byte(nil), body...), "tail"...), mode: readerMode}, int64(len(body))), -1)
 	}
 	return body
 }
 
+// c03Warm: the connection has served a request before (the response object
+// and its buffers are being reused when the handler under test runs).
+var c03Warm bool
+
 func c03Serve(isHead bool, http10 bool, handler func(ctx *RequestCtx)) (c *vsSegConn, calls *int) {
+	if c03Warm {
+		return c03ServeWarm(isHead, http10, handler)
+	}
 	req := "GET /a HTTP/1.1\r\nHost: a\r\n\r\n"
 	if isHead {
 		req = "HEAD /a HTTP/1.1\r\nHost: a\r\n\r\n"
@@ -190,6 +199,38 @@ func c03Serve(isHead bool, http10 bool, handler func(ctx *RequestCtx)) (c *vsSeg
 		handler(ctx)
 	}
 	s.ServeConn(c)
+	return c, calls
+}
+
+func c03ServeWarm(isHead bool, http10 bool, handler func(ctx *RequestCtx)) (c *vsSegConn, calls *int) {
+	req := "GET /a HTTP/1.1\r\nHost: a\r\n\r\n"
+	if isHead {
+		req = "HEAD /a HTTP/1.1\r\nHost: a\r\n\r\n"
+	}
+	if http10 {
+		req = "GET /a HTTP/1.0\r\nHost: a\r\nConnection: keep-alive\r\n\r\n"
+	}
+	c = &vsSegConn{segs: [][]byte{[]byte("GET /warm HTTP/1.1\r\nHost: a\r\n\r\n"), []byte(req), []byte("GET /b HTTP/1.1\r\nHost: a\r\nConnection: close\r\n\r\n")}}
+	s := &Server{NoDefaultDate: true, NoDefaultServerHeader: true}
+	n := 0
+	calls = &n
+	skip := 0
+	s.Handler = func(ctx *RequestCtx) {
+		if string(ctx.Path()) == "/warm" {
+			ctx.Response.SetBodyRaw([]byte("warm-raw"))
+			ctx.SetBodyString("warm-up response body")
+			return
+		}
+		n++
+		if n > 1 {
+			ctx.SetBodyString("second")
+			return
+		}
+		skip = len(c.wrote) // the warm-up response has been sent
+		handler(ctx)
+	}
+	s.ServeConn(c)
+	c.wrote = c.wrote[skip:]
 	return c, calls
 }
 
@@ -254,7 +295,7 @@ func vhC03ResponseFraming() {
 	isHead := vBool("head")
 	how := vChoose("how", c03NumHow)
 	readerMode := 0
-	if how == 2 || how == 3 || how == 6 {
+	if how == 2 || how == 3 || how == 6 || how == 7 {
 		readerMode = vChoose("readerMode", 3)
 	}
 	closeFirst := vBool("closeFirst")
@@ -284,11 +325,13 @@ func vhC03TwoCalls() {
 		status = 304
 	}
 	var want []byte
+	c03Warm = vBool("connectionServedARequestBefore")
 	c, calls := c03Serve(isHead, false, func(ctx *RequestCtx) {
 		ctx.SetStatusCode(status)
 		c03Apply(ctx, how1, body1, 0)
 		want = c03Apply(ctx, how2, body2, 0)
 	})
+	c03Warm = false
 	c03CloseAny = how1 == 6 || how2 == 6
 	c03Check(c, *calls, isHead, status, want, false, -1)
 }
